@@ -206,7 +206,7 @@ func TestVerif_C12(t *testing.T) {
 		scens = append(scens, scen{"features", f, 0, "up"}, scen{"features", f, 0, "down"})
 	}
 	scens = append(scens, scen{"updown", 0, 0, "bess"}, scen{"updown", 0, 0, "up4-never-connected"})
-	reps := vEnv.pick(3, 30)
+	reps := vEnv.pick(3, 120)
 	idx := 0
 	for rep := 0; rep < reps; rep++ {
 		for _, sc := range scens {
